@@ -198,3 +198,29 @@ Qed.
 Example C05_nonvacuous_hand_over :
   run [0; 2; 7; 0; 0; 9; 0; 10; 1; 30; 4; 0; 0; 10; 0] = [2; 0; 30; 1; 2; 0; 10; 1; 1; 30].
 Proof. vm_compute. reflexivity. Qed.
+
+(* A stale wake-up event is an ordinary event of the histories the theorems quantify over:
+   [EWake] asks only that a wake-up is scheduled, not that its bump pops anything.  Timer 1
+   (deadline 10, wake-up 10 scheduled) is dropped by a message event at 2, which also registers
+   timer 2 for 20 (not earlier than next_wakeup = 10: nothing is scheduled); the wake-up 10 then
+   fires with nothing to bump, clears next_wakeup because it is due, and its deactivate
+   schedules 20; timer 2 is woken at exactly 20. *)
+Example C05_nonvacuous_stale_wakeup :
+  let tr := [EOther 0 [Register 1 10]; EOther 2 [DropEntry 1 10; Register 2 20]; EWake []; EWake []] in
+  valid_trace (0, new_driver) tr /\
+  snd (run_trace true (0, new_driver) [EOther 0 [Register 1 10]; EOther 2 [DropEntry 1 10; Register 2 20]; EWake []]) = [] /\
+  run_trace true (0, new_driver) tr = (20, {| pending := []; next_wakeup := None; scheduled := [] |}, [(20, (20, [2]))]).
+Proof.
+  cbn zeta. split; [|vm_compute; split; reflexivity].
+  split; [split; [vm_compute; discriminate|split; [intros w []|repeat constructor]]|].
+  split; [split; [vm_compute; discriminate|split; [|repeat constructor]]|].
+  - vm_compute. intros w [<-|[]]. discriminate.
+  - split; [exists 10; split; [vm_compute; reflexivity|constructor]|].
+    split; [exists 20; split; [vm_compute; reflexivity|constructor]|exact I].
+Qed.
+
+(* the same in the composite model: task 0 waits in timeout(10, receive), then sleep_until(20);
+   a message at 2 spawns task 1, which sends at once *)
+Example C05_nonvacuous_message_cancels_earliest_timer :
+  run [0; 2; 7; 0; 0; 11; 10; 0; 2; 20; 5; 0; 2; 9; 0; 5] = [3; 2; 1; 20; 1; 1; 2; 1; 1; 20].
+Proof. vm_compute. reflexivity. Qed.
